@@ -24,7 +24,9 @@ Inductive action := ACall (ordered : bool) (data : list Z) (chunk : nat) | ARead
 (* ------------------------------------------------------------------ state *)
 Inductive qitem := QChunk (i : nat) (xs : list Z) | QNone.          (* QNone: stop order / wake-up token *)
 
-Inductive wpc := WNew | WBegin | WIdle | WHold (i : nat) (xs : list Z) | WRetire | WEnding | WDead.
+(* WHoldR: the worker has computed its last chunk (quota used up) and has announced its retirement on the replace queue;
+   the result of that chunk is still to be delivered *)
+Inductive wpc := WNew | WBegin | WIdle | WHold (i : nat) (xs : list Z) | WHoldR (i : nat) (xs : list Z) | WEnding | WDead.
 Record worker := mkW {
   w_id : nat; w_pc : wpc; w_quota : option nat; w_ready : bool;
   w_log : list nat            (* lifecycle log: 0 = begin, 1 = item chunk, 2 = end *)
@@ -145,21 +147,32 @@ Definition worker_step (cfg : config) (w : worker) (ev_kind : nat) (raises : boo
           Some (mkW (w_id w) (WHold i xs) (w_quota w) (w_ready w) (w_log w ++ [1]), s')
       end
   | 2, WHold i xs =>
-      if full (c_rq_cap cfg) (s_resq s) then None                       (* the fallback put() blocks *)
+      (* a factory worker on its last allowed chunk announces its retirement first (step 3) *)
+      if c_factory cfg && (match w_quota w with Some 1 => true | _ => false end) then None
+      else if full (c_rq_cap cfg) (s_resq s) then None                       (* the fallback put() blocks *)
       else
         let q' := match w_quota w with Some n => Some (n - 1) | None => None end in
-        let pc' := match q' with
-                   | Some O => if c_factory cfg then WRetire else WEnding
-                   | _ => WIdle end in
+        let pc' := match q' with Some O => WEnding | _ => WIdle end in
         Some (mkW (w_id w) pc' q' (w_ready w) (w_log w),
               mkSt (s_todo s) (s_main s) (s_ordered s) (s_chunk s) (s_data s) (s_sending s) (s_cnt s) (s_finished s) (s_buffer s)
                    (s_wait s) (s_yield s) (s_done_calls s) (s_error s) (s_workq s) (s_resq s ++ [QChunk i xs]) (s_replq s)
                    (s_run_ev s) (s_feeder s) (s_rep s) (s_procs s) (s_retired s) (s_wid s))
-  | 3, WRetire =>
-      Some (mkW (w_id w) WEnding (w_quota w) (w_ready w) (w_log w),
-            mkSt (s_todo s) (s_main s) (s_ordered s) (s_chunk s) (s_data s) (s_sending s) (s_cnt s) (s_finished s) (s_buffer s)
-                 (s_wait s) (s_yield s) (s_done_calls s) (s_error s) (s_workq s) (s_resq s) (s_replq s ++ [Some (w_id w)])
-                 (s_run_ev s) (s_feeder s) (s_rep s) (s_procs s) (s_retired s) (s_wid s))
+  | 2, WHoldR i xs =>
+      if full (c_rq_cap cfg) (s_resq s) then None
+      else
+        Some (mkW (w_id w) WEnding (w_quota w) (w_ready w) (w_log w),
+              mkSt (s_todo s) (s_main s) (s_ordered s) (s_chunk s) (s_data s) (s_sending s) (s_cnt s) (s_finished s) (s_buffer s)
+                   (s_wait s) (s_yield s) (s_done_calls s) (s_error s) (s_workq s) (s_resq s ++ [QChunk i xs]) (s_replq s)
+                   (s_run_ev s) (s_feeder s) (s_rep s) (s_procs s) (s_retired s) (s_wid s))
+  | 3, WHold i xs =>
+      (* max_chunks_per_worker -= 1 reaches 0: the retirement notice goes to the replace queue BEFORE the last result is
+         delivered, so it is in front of the stop token that the consumer sends after it has got that result *)
+      if c_factory cfg && (match w_quota w with Some 1 => true | _ => false end) then
+        Some (mkW (w_id w) (WHoldR i xs) (Some 0) (w_ready w) (w_log w),
+              mkSt (s_todo s) (s_main s) (s_ordered s) (s_chunk s) (s_data s) (s_sending s) (s_cnt s) (s_finished s) (s_buffer s)
+                   (s_wait s) (s_yield s) (s_done_calls s) (s_error s) (s_workq s) (s_resq s) (s_replq s ++ [Some (w_id w)])
+                   (s_run_ev s) (s_feeder s) (s_rep s) (s_procs s) (s_retired s) (s_wid s))
+      else None
   | 4, WEnding => Some (mkW (w_id w) WDead (w_quota w) (w_ready w) (w_log w ++ [2]), s)
   | 5, WHold _ _ => Some (mkW (w_id w) WEnding (w_quota w) (w_ready w) (w_log w), s)
   | _, _ => None
